@@ -53,8 +53,8 @@ func c01Alphabet(files []*sFile, thorough bool) func(hist []sAction) []sAction {
 			out = append(out, sAction{Op: "recvwrong", F: "a1", P: 1}, sAction{Op: "recvwrong", F: "b1", P: 0})
 			out = append(out, sAction{Op: "flip", F: "a1"})
 		}
-		if histCount(hist, "poll", "", 0) < 2 {
-			out = append(out, sAction{Op: "poll", F: "a1"}, sAction{Op: "poll", F: "b1"})
+		if histCount(hist, "poll", "", 0)+histCount(hist, "pollold", "", 0) < 2 {
+			out = append(out, sAction{Op: "poll", F: "a1"}, sAction{Op: "poll", F: "b1"}, sAction{Op: "pollold", F: "a1"})
 		}
 		if histCount(hist, "restart", "", 0) < 1 {
 			out = append(out, sAction{Op: "restart"})
@@ -129,31 +129,9 @@ func c01Check(s *sim, _ bool) vh.HistResult {
 				return res
 			}
 		}
-		if st.Act.Op == "poll" && (st.Status == sts.ConfirmPassed || st.Status == sts.ConfirmWaiting) {
-			// a positive answer means a validated copy is durably held (receiver half of C02)
-			f := s.files[st.Act.F]
-			h := st.Hashes[f.Name]
-			held := false
-			for _, e := range st.Stage {
-				if e.Path == f.Name+waitExt && e.MD5 == h {
-					held = true
-				}
-			}
-			for _, c := range s.w.consumed {
-				if c == f.target()+" "+h {
-					held = true
-				}
-			}
-			logged := false
-			for _, rec := range st.LogAfter {
-				if strings.HasPrefix(rec, f.Name+"|") && strings.HasSuffix(rec, "|"+h) {
-					logged = true
-				}
-			}
-			if !held && !logged {
-				res.Viol = fmt.Sprintf("step %d: poll of %s answered %d but no validated copy with hash %s is held or logged\n%s", i, f.Name, st.Status, h, s.trace())
-				return res
-			}
+		if v := c02PollOracle(s, i); v != "" {
+			res.Viol = v
+			return res
 		}
 	}
 	nArr := 0
@@ -215,7 +193,66 @@ func TestC01(t *testing.T) {
 	}
 	files := c01Files()
 	runSimCheck(t, "C01", "stage histories (E-HIST)", files, c01Alphabet(files, vh.Thorough()), c01Check, depth,
-		fmt.Sprintf("all histories up to length %d over: 2 versions of a renamed file in 2 parts each + a file with the same leaf name in a sub-directory; every part received <=2 times in any order, one (thorough: two) corruption(s) out of {byte flipped in transit, wrong announced hash, staged partial overwritten}, polls, clock +11 s/+31 min/+25 h, orderly restart", depth))
+		fmt.Sprintf("all histories up to length %d over: 2 versions of a renamed file in 2 parts each + a file with the same leaf name in a sub-directory; every part received <=2 times in any order, one (thorough: two) corruption(s) out of {byte flipped in transit, wrong announced hash, staged partial overwritten}, polls (with the file's time and with a time 48 h older), clock +11 s/+31 min/+25 h, orderly restart", depth))
 }
 
 var _ = filepath.Join
+
+// TestSimTrace prints the trace of a replayed history (debugging aid).
+func TestSimTrace(t *testing.T) {
+	stT = t
+	var rc simReplay
+	if !vh.ReplaySpec(&rc) {
+		t.Skip("no replay")
+	}
+	simRun(rc.Files, rc.Hist, func(s *sim, _ bool) vh.HistResult {
+		fmt.Println(s.trace())
+		fmt.Println(s.w.dump())
+		fmt.Println(s.w.tree())
+		return vh.HistResult{Enabled: true}
+	})
+}
+
+// c02PollOracle (receiver half of C02): a positive poll answer means a validated copy of the
+// version the sender asks about is durably held. The sender asks after it transmitted all
+// bytes of a version, so the version meant is the one announced last under that name,
+// provided all of its parts were transmitted since it became current.
+func c02PollOracle(s *sim, i int) string {
+	st := s.steps[i]
+	if !(st.Act.Op == "poll" || st.Act.Op == "pollold") || !(st.Status == sts.ConfirmPassed || st.Status == sts.ConfirmWaiting) {
+		return ""
+	}
+	f := s.files[st.Act.F]
+	var cur *sFile
+	sent := map[int]bool{}
+	for _, x := range s.steps[:i] {
+		xf := s.files[x.Act.F]
+		if xf == nil || xf.Name != f.Name || !strings.HasPrefix(x.Act.Op, "recv") {
+			continue
+		}
+		if x.Act.Op == "recvwrong" {
+			// announces another hash: a version of its own, never completed here
+			cur, sent = nil, map[int]bool{}
+			continue
+		}
+		if cur != xf {
+			cur, sent = xf, map[int]bool{}
+		}
+		sent[x.Act.P] = true
+	}
+	if cur == nil || len(sent) != len(cur.Cuts)-1 {
+		return ""
+	}
+	h := cur.hash()
+	for _, e := range vh.List(s.w.stageDir) {
+		if e.Path == cur.Name+waitExt && e.MD5 == h {
+			return ""
+		}
+	}
+	for _, c := range s.w.consumed {
+		if c == cur.target()+" "+h {
+			return ""
+		}
+	}
+	return fmt.Sprintf("step %d: the poll of %s answers %d, but the version transmitted last (%s, hash %s) is neither held validated nor delivered\n%s", i, f.Name, st.Status, cur.Key, h, s.trace())
+}
